@@ -50,6 +50,21 @@ def staged_complete(rng):
     return cells
 
 
+def chain_cover(rng, root, depth):
+    """the longest merge cascade: `root` refined along ONE branch down to resolution `depth` (at each level one child is split further,
+    its siblings stay) - 3 or 4 cells per level; every group completes only after the one below it has merged, so compacting it back
+    to `root` takes one pass per level (30 passes from resolution 29 to the world cell)"""
+    out = []
+    c = root
+    while spec.decode(c)[0] < depth:
+        ch = spec.children(c)
+        keep = rng.randrange(len(ch))
+        out.extend(x for i, x in enumerate(ch) if i != keep)
+        c = ch[keep]
+    out.append(c)
+    return out
+
+
 def overlapping(rng):
     base = antichain(rng, 300)
     extra = []
